@@ -47,6 +47,15 @@ func (s resendState) FixMsgIn(session *session, msg *Message) (nextState session
 		return
 	}
 
+	// A Logon resetting the sequence numbers starts numbering from 1 again: the range being
+	// recovered and the messages kept for it belong to the numbering that was abandoned.
+	if msg.IsMsgTypeOf(string(msgTypeLogon)) {
+		var resetSeqNumFlag FIXBoolean
+		if err := msg.Body.GetField(tagResetSeqNumFlag, &resetSeqNumFlag); err == nil && resetSeqNumFlag.Bool() {
+			return
+		}
+	}
+
 	if s.currentResendRangeEnd != 0 && s.currentResendRangeEnd < session.store.NextTargetMsgSeqNum() &&
 		session.store.NextTargetMsgSeqNum() <= s.resendRangeEnd {
 		nextResendState, err := session.sendResendRequest(session.store.NextTargetMsgSeqNum(), s.resendRangeEnd)
